@@ -165,8 +165,8 @@ pub fn flow_programs(quick: bool) -> Vec<FlowProgram> {
             }
         }
     }
-    // three witnesses (thorough): flows cyclic
-    if !quick {
+    // three witnesses: flows cyclic
+    {
         for (i, f0) in FLOWS.iter().enumerate() {
             for (k, t0) in types.iter().enumerate() {
                 let f1 = FLOWS[(i + 3) % FLOWS.len()];
@@ -185,7 +185,7 @@ pub fn run(rep: &Report) -> i32 {
     for (name, text) in crate::tokens::examples() {
         progs.push(FlowProgram { text, witnesses: vec![], label: format!("example {name}"), uninspected_by_construction: false });
     }
-    rep.set("bounds", json!({"programs": progs.len(), "flows": FLOWS, "types": wide_types(quick).iter().map(|t| t.render()).collect::<Vec<_>>(), "witnesses_per_program": if quick {"1..2"} else {"1..3"}, "maps": "complete product of per-witness value alphabets (<= 4 values each) + each name missing + empty map"}));
+    rep.set("bounds", json!({"programs": progs.len(), "flows": FLOWS, "types": wide_types(quick).iter().map(|t| t.render()).collect::<Vec<_>>(), "witnesses_per_program": "1..3", "maps": "complete product of per-witness value alphabets (<= 4 values each) + each name missing + empty map"}));
     par_for(&progs, rep, 8, |i, p| {
         drive::DUMMY.with(|env| check_flow(rep, p, i, env));
     });
